@@ -19,6 +19,7 @@ import (
 	"net"
 	"os"
 	"path/filepath"
+	"regexp"
 	"runtime"
 	"sort"
 	"strings"
@@ -72,6 +73,12 @@ func (r *vfRobust) render(h *vfHostile) []byte {
 			start = "INVITE " + ruri
 		case "huge":
 			start = "INVITE sip:" + strings.Repeat("u", 30000) + "@svc.example.com SIP/2.0"
+		case "negnum":
+			start = "INVITE " + ruri + " SIP/-2.0"
+		case "zeronum":
+			start = "INVITE " + ruri + " SIP/0"
+		case "bignum":
+			start = "INVITE " + ruri + " SIP/99999999999.0"
 		}
 	} else {
 		start = "SIP/2.0 200 OK"
@@ -82,6 +89,12 @@ func (r *vfRobust) render(h *vfHostile) []byte {
 			start = "SIP/2.0"
 		case "huge":
 			start = "SIP/2.0 200 " + strings.Repeat("r", 30000)
+		case "negnum": // strconv.Atoi accepts a sign: the status line decodes
+			start = "SIP/2.0 -200 OK"
+		case "zeronum":
+			start = "SIP/2.0 0 OK"
+		case "bignum":
+			start = "SIP/2.0 99999999999 OK"
 		}
 	}
 	own := fmt.Sprintf("SIP/2.0/UDP %s:%d;branch=z9hG4bKown", r.la, r.uport)
@@ -267,6 +280,8 @@ var vfCorpus = []string{
 	"NOTIFY sip:service@svc.example.com SIP/2.0\r\nVia: SIP/2.0/UDP 10.1.1.1;branch=z9hG4bKc3\r\nFrom: <tel:+15551234>;tag=9\r\nTo: <urn:service:sos>;tag=8\r\nCall-ID: c3\r\nCSeq: 3 NOTIFY\r\nSubscription-State: terminated\r\nExpires: 3600\r\nRecord-Route: <sip:10.4.4.4;lr>\r\nContent-Length: 0\r\n\r\n",
 }
 
+var vfDigitRuns = regexp.MustCompile(`[0-9]+`)
+
 func (r *vfRobust) mutate(src []byte) []byte {
 	b := append([]byte(nil), src...)
 	for k := 1 + r.rnd.Intn(4); k > 0; k-- {
@@ -296,15 +311,13 @@ func (r *vfRobust) mutate(src []byte) []byte {
 				lines = append(lines[:i], append(dup, lines[i:]...)...)
 				b = []byte(strings.Join(lines, "\r\n"))
 			}
-		case 4: // edit a number (length fields, ports, status)
-			s := string(b)
-			for _, d := range []string{"5", "0", "70", "5062", "200", "1"} {
-				if i := strings.Index(s, d); i >= 0 && r.rnd.Intn(2) == 0 {
-					s = s[:i] + []string{"-1", "99999999999", "4611686018427387904", "2147483648", "0x10", ""}[r.rnd.Intn(6)] + s[i+len(d):]
-					break
-				}
+		case 4: // edit a number (length fields, ports, status code, CSeq, Max-Forwards, address octets)
+			if runs := vfDigitRuns.FindAllIndex(b, -1); len(runs) > 0 {
+				x := runs[r.rnd.Intn(len(runs))]
+				orig := string(b[x[0]:x[1]])
+				rep := []string{"-1", "-" + orig, "99999999999", "4611686018427387904", "2147483648", "0x10", "", "0", orig + "00000", "+" + orig}[r.rnd.Intn(10)]
+				b = append(b[:x[0]:x[0]], append([]byte(rep), b[x[1]:]...)...)
 			}
-			b = []byte(s)
 		case 5: // insert random bytes
 			n := 1 + r.rnd.Intn(64)
 			ins := make([]byte, n)
